@@ -6,7 +6,8 @@ verus! {
 //@include prelude/vecmath_assumed.rs
 //@include units/inc/status_items.rs
 
-//@enum file=src/solver/core/cones/supportedcone.rs name=SupportedConeT rules=R12
+//@enum file=src/solver/core/cones/supportedcone.rs name=SupportedConeT rules=R12 derive="Clone"
+//@struct file=src/algebra/csc/core.rs name=CscMatrix
 //@struct file=src/solver/implementations/default/presolver.rs name=PresolverRowReductionIndex
 //@struct file=src/solver/implementations/default/presolver.rs name=Presolver keep=_init_cones,reduce_map,mfull,mreduced,infbound
 //@struct file=src/solver/implementations/default/equilibration.rs name=DefaultEquilibrationData
@@ -43,6 +44,17 @@ pub open spec fn thr(infbound: F) -> F {
 // C09: "exactly those rows that sit in a nonnegative cone and whose right-hand side is above the bound are dropped"
 pub open spec fn dropped(cones: Seq<SupportedConeT<F>>, b: Seq<F>, infbound: F, i: int) -> bool {
     row_in_nn(cones, i) && f_lt(thr(infbound), b[i])
+}
+// C09: the reduction record produced for (cones, b) under the bound `infbound`
+pub open spec fn reduction_ok(cones: Seq<SupportedConeT<F>>, b: Seq<F>, infbound: F, map: Option<PresolverRowReductionIndex>, mreduced: usize) -> bool {
+    &&& mreduced <= b.len()
+    // None <=> nothing is dropped
+    &&& (map is None <==> (forall|i: int| 0 <= i < b.len() ==> !dropped(cones, b, infbound, i)))
+    &&& (map is None ==> mreduced == b.len())
+    // the keep mask marks exactly the rows that are in a nonnegative cone and above the threshold
+    &&& (map matches Some(m) ==> m.keep_logical@.len() == b.len()
+            && (forall|i: int| 0 <= i < b.len() ==> #[trigger] m.keep_logical@[i] == !dropped(cones, b, infbound, i))
+            && mreduced == count_true(m.keep_logical@, b.len() as int))
 }
 pub open spec fn count_true(s: Seq<bool>, n: int) -> int
     decreases n,
@@ -101,15 +113,7 @@ impl SupportedConeT<F> {
     requires
         // well-formed input: the cones partition the rows of b
         cone_start(cones@, cones@.len() as int) == b@.len(),
-    ensures
-        r.1 <= b@.len(),
-        // None <=> nothing is dropped
-        r.0 is None <==> (forall|i: int| 0 <= i < b@.len() ==> !dropped(cones@, b@, infbound, i)),
-        r.0 is None ==> r.1 == b@.len(),
-        // C09: the keep mask marks exactly the rows that are in a nonnegative cone and above the threshold
-        r.0 matches Some(m) ==> m.keep_logical@.len() == b@.len()
-            && (forall|i: int| 0 <= i < b@.len() ==> #[trigger] m.keep_logical@[i] == !dropped(cones@, b@, infbound, i))
-            && r.1 == count_true(m.keep_logical@, b@.len() as int),
+    ensures reduction_ok(cones@, b@, infbound, r.0, r.1),
 //@before "let infbound ="
     let ghost infbound0 = infbound;
 //@iter 1
@@ -189,7 +193,32 @@ it2
     }
 //@end
 
+// module-level infinity bound (src/utils/infbounds.rs: an AtomicF64 behind lazy_static!, outside Verus).
+// ASSUMED: get_infinity() returns "the value in force", modelled as one uninterpreted value for the duration of a
+// constructor call (no concurrent set_infinity while a solver is being built)
+pub uninterp spec fn infinity_in_force() -> f64;
+#[verifier::external_body]
+pub fn get_infinity() -> (r: f64) ensures r == infinity_in_force() { unimplemented!() }
+//@const file=src/lib.rs name=_INFINITY_DEFAULT
+//@const file=src/utils/infbounds.rs name=INFINITY_DEFAULT
+pub assume_specification<T: Clone> [<[T]>::to_vec] (s: &[T]) -> (r: Vec<T>)
+    ensures r@.len() == s@.len();
+
 impl Presolver<F> {
+//@fn file=src/solver/implementations/default/presolver.rs in="impl<T> Presolver<T>" name=new rules=R1 ret=r
+//@contract
+    requires cone_start(cones@, cones@.len() as int) == b@.len(),
+    ensures
+        // C09: "the bound is the module-level value in force when the solver was built", captured once
+        r.infbound == infinity_in_force(),
+        r.mfull == b@.len(),
+        reduction_ok(cones@, b@, f_lit(infinity_in_force()), r.reduce_map, r.mreduced),
+//@end
+//@fn file=src/solver/implementations/default/presolver.rs in="impl<T> Presolver<T>" name=count_reduced rules=R1 ret=r
+//@contract
+    requires self.mreduced <= self.mfull,
+    ensures r == self.mfull - self.mreduced,
+//@end
 //@fn file=src/solver/implementations/default/presolver.rs in="impl<T> Presolver<T>" name=is_reduced rules=R1 ret=r
 //@contract
     ensures r == (self.reduce_map is Some)
